@@ -34,12 +34,22 @@ def _judge(ctx, cases, prop, origin, max_skip_ratio=None):
     """Run the real code on the cases, have TLC judge the records, report rejections."""
     recs = []
     by_id = {}
-    for c in cases:
+    from chartgen import ITERABLE_KINDS, entry_point
+    for n, c in enumerate(cases):
         rec = nt.observe(c, [prop])
         recs.append(rec)
         by_id[c["id"]] = (c, rec)
         ctx.evaluations += 1
         ctx.distinct([c["res"], c["body"], c.get("tempo")])
+        how = c.get("entry") or (ITERABLE_KINDS[(n // 6) % len(ITERABLE_KINDS)] if n % 6 == 0 and origin != "replay" else None)
+        if how:
+            # the same section through the section-level public entry points, its body as another kind of Iterable[str]
+            c2 = dict(c, id=c["id"] + "@" + how, entry=how)
+            with entry_point(how):
+                rec2 = nt.observe(c2, [prop])
+            recs.append(rec2)
+            by_id[c2["id"]] = (c2, rec2)
+            ctx.evaluations += 1
         exp = c.get("expect")
         if exp is not None and not rec["raised"] and exp.get("outcome") == "ok":
             got = [[n["t"], sorted(j for j in range(5) if n["lanes"][j]), n["h"], n["sp"]] for n in rec["notes"]]
@@ -139,7 +149,16 @@ def seeded_tracks(ctx, prop, n, **kw):
                 tempo.append([t, r.choice([60000, 90000, 200000, 1000 * r.randrange(1, 1000)])])
         body = nt.random_track(r, ng, res=res, big=big, phrases=r.choice([0, 0, 1, 2, 4, 7]),
                                events=r.choice([0, 0, 1, 3]), **kw)
-        cases.append({"id": f"{prop}-s{k}", "res": res, "body": body, "tempo": tempo})
+        case = {"id": f"{prop}-s{k}", "res": res, "body": body, "tempo": tempo}
+        if k % 4 == 1:
+            # blank, whitespace-only and unparsable lines in the [Events] section before this one and inside the section itself
+            # (they are reported and skipped; what the section's note lines mean does not depend on them)
+            junk = ["", "   ", "\t", "garbage", "0 = N 0", "[Song]", " {", "} "]
+            case["events"] = [r.choice(junk + ['0 = E "section a"', '5 = E "lyric b"']) for _ in range(r.randrange(1, 5))]
+            case["events"].sort(key=lambda ln: 0 if not ln[:1].isdigit() else 1)
+            extra = [("J", r.choice(junk)) for _ in range(r.randrange(1, 4))]
+            case["body"] = nt.interleave(r, body, extra)
+        cases.append(case)
     return cases
 
 
